@@ -983,3 +983,834 @@ Theorem old_predefined_redeclaration_refuted :
 Proof.
   eexists. split; [vm_compute; reflexivity|]. intros W. apply wfhb_complete in W. vm_compute in W. discriminate.
 Qed.
+
+(* ################################################################################################ Part 2: features (C11) *)
+(* ================================================================================================ Feature.__eq__ is an equivalence *)
+Lemma ostr_eqb_eq a b : ostr_eqb a b = true <-> a = b.
+Proof.
+  destruct a as [x|], b as [y|]; cbn [ostr_eqb]; try (split; [discriminate|intros H; inversion H]); [|tauto].
+  rewrite String.eqb_eq. split; [intros ->; reflexivity|intros H; inversion H; reflexivity].
+Qed.
+Definition fkey (f : feat) := (f_name f, f_desc f, f_range f, elem_name f).
+Lemma feat_eqb_key a b : feat_eqb a b = true <-> fkey a = fkey b.
+Proof.
+  unfold feat_eqb, fkey. rewrite !andb_true_iff, !String.eqb_eq, ostr_eqb_eq. split.
+  - intros [[[-> ->] ->] ->]. reflexivity.
+  - intros H. inversion H. auto.
+Qed.
+Lemma feat_eqb_refl a : feat_eqb a a = true.
+Proof. apply feat_eqb_key. reflexivity. Qed.
+Lemma feat_eqb_sym a b : feat_eqb a b = true -> feat_eqb b a = true.
+Proof. rewrite !feat_eqb_key. congruence. Qed.
+Lemma feat_eqb_trans a b c : feat_eqb a b = true -> feat_eqb b c = true -> feat_eqb a c = true.
+Proof. rewrite !feat_eqb_key. congruence. Qed.
+Lemma feat_eqb_name a b : feat_eqb a b = true -> f_name a = f_name b.
+Proof. rewrite feat_eqb_key. unfold fkey. intros H. inversion H. reflexivity. Qed.
+Lemma feat_eqb_range a b : feat_eqb a b = true -> f_range a = f_range b.
+Proof. rewrite feat_eqb_key. unfold fkey. intros H. inversion H. reflexivity. Qed.
+
+(* ================================================================================================ unique_everseen *)
+Lemma uniq_seen_fresh l : forall seen x, In x (uniq_seen seen l) -> forall s, In s seen -> feat_eqb s x = false.
+Proof.
+  induction l as [|y r IH]; intros seen x H s Hs; cbn [uniq_seen] in H; [contradiction|].
+  destruct (existsb (fun s0 => feat_eqb s0 y) seen) eqn:E.
+  - eapply IH; eassumption.
+  - destruct H as [<-|H].
+    + destruct (feat_eqb s y) eqn:E1; [|reflexivity].
+      assert (existsb (fun s0 => feat_eqb s0 y) seen = true) by (apply existsb_exists; eauto). congruence.
+    + eapply IH; [exact H|right; exact Hs].
+Qed.
+Lemma uniq_seen_complete l : forall seen g, In g l ->
+  (exists s, In s seen /\ feat_eqb s g = true) \/ (exists y, In y (uniq_seen seen l) /\ feat_eqb y g = true).
+Proof.
+  induction l as [|y r IH]; intros seen g Hg; [contradiction|]. cbn [uniq_seen].
+  destruct (existsb (fun s0 => feat_eqb s0 y) seen) eqn:E.
+  - destruct Hg as [<-|Hg]; [left; apply existsb_exists in E; exact E|apply IH; exact Hg].
+  - destruct Hg as [<-|Hg]; [right; exists y; split; [left; reflexivity|apply feat_eqb_refl]|].
+    destruct (IH (y :: seen) g Hg) as [(s & [<-|Hs] & He)|(y' & Hy' & He)].
+    + right. exists y. split; [left; reflexivity|exact He].
+    + left. eauto.
+    + right. exists y'. split; [right; exact Hy'|exact He].
+Qed.
+Lemma uniq_seen_nodup_names l : forall seen,
+  (forall f g, In f l -> In g l -> f_name f = f_name g -> feat_eqb f g = true) -> NoDup (map f_name (uniq_seen seen l)).
+Proof.
+  induction l as [|y r IH]; intros seen H; cbn [uniq_seen]; [constructor|].
+  assert (Hr : forall f g, In f r -> In g r -> f_name f = f_name g -> feat_eqb f g = true)
+    by (intros f g Hf Hg; apply H; right; assumption).
+  destruct (existsb (fun s0 => feat_eqb s0 y) seen); [apply IH; exact Hr|].
+  cbn [map]. constructor; [|apply IH; exact Hr].
+  intros Hin. apply in_map_iff in Hin. destruct Hin as (x & Hn & Hx).
+  pose proof (uniq_seen_fresh r (y :: seen) x Hx y (or_introl eq_refl)) as Hf.
+  rewrite (H y x (or_introl eq_refl) (or_intror (uniq_seen_In _ _ _ Hx)) (eq_sym Hn)) in Hf. discriminate.
+Qed.
+Lemma all_features_complete t g : In g (t_own t ++ t_inh t) -> exists y, In y (all_features t) /\ feat_eqb y g = true.
+Proof. intros H. destruct (uniq_seen_complete _ [] g H) as [(s & [] & _)|H']; exact H'. Qed.
+
+Lemma find_feat_none l n : find_feat n l = None -> forall g, In g l -> f_name g <> n.
+Proof.
+  intros H g Hg Hn. pose proof (find_none _ _ H g Hg) as Hx. unfold named in Hx. rewrite Hn, String.eqb_refl in Hx. discriminate.
+Qed.
+Lemma find_feat_some l n g : find_feat n l = Some g -> In g l /\ f_name g = n.
+Proof. intros H. apply find_some in H. destruct H as [H1 H2]. apply String.eqb_eq in H2. auto. Qed.
+Lemma find_feat_none_intro l n : (forall g, In g l -> f_name g <> n) -> find_feat n l = None.
+Proof.
+  intros H. destruct (find_feat n l) as [g|] eqn:E; [|reflexivity]. destruct (find_feat_some _ _ _ E) as [Hg Hn]. exfalso. eapply H; eassumption.
+Qed.
+Lemma inherit_all_nodup l : forall acc, NoDup (map f_name l) -> (forall g x, In g acc -> In x l -> f_name g <> f_name x) ->
+  inherit_all acc l = Ok (acc ++ l).
+Proof.
+  induction l as [|f r IH]; intros acc Hnd Hdis; cbn [inherit_all]; [rewrite app_nil_r; reflexivity|].
+  inversion Hnd as [|? ? Hn Hnd']; subst.
+  rewrite (find_feat_none_intro acc (f_name f)); [|intros g Hg; apply Hdis; [exact Hg|left; reflexivity]].
+  rewrite (IH (acc ++ [f]) Hnd').
+  - rewrite <- app_assoc. reflexivity.
+  - intros g x Hg Hx. apply in_app_or in Hg. destruct Hg as [Hg|[<-|[]]].
+    + apply Hdis; [exact Hg|right; exact Hx].
+    + intros E. apply Hn. rewrite E. apply in_map. exact Hx.
+Qed.
+
+(* ================================================================================================ what WFf says *)
+(* one definition per feature name *)
+Theorem no_two_definitions ts t : WFf ts -> In t ts -> NoDup (feature_names t).
+Proof.
+  intros F Hin. unfold feature_names, all_features. apply uniq_seen_nodup_names.
+  intros f g Hf Hg Hn. apply (wf_one_def _ F t f g Hin Hf Hg Hn).
+Qed.
+(* C11, first sentence: the effective features of a type are its own plus those of all its ancestors *)
+Theorem effective_features_spec ts t : WFh ts -> WFf ts -> In t ts ->
+  (forall f, In f (all_features t) -> exists a ta, below ts a (t_name t) /\ find_ty ts a = Some ta /\ In f (t_own ta)) /\
+  (forall a ta g, below ts a (t_name t) -> find_ty ts a = Some ta -> In g (t_own ta) ->
+     exists f, In f (all_features t) /\ feat_eqb f g = true) /\
+  NoDup (feature_names t).
+Proof.
+  intros W F Hin. split; [|split; [|eapply no_two_definitions; eassumption]].
+  - intros f Hf. apply all_features_In in Hf. apply in_app_or in Hf. destruct Hf as [Hf|Hf].
+    + exists (t_name t), t. repeat split; [apply below_refl|apply (In_find_ty _ _ (wf_nodup _ W) Hin)|exact Hf].
+    + destruct (wf_inh_sound _ F t f Hin Hf) as (a & ta & Hs & Ha & Hfa). exists a, ta. repeat split; auto. apply sbelow_below. exact Hs.
+  - intros a ta g Hb Ha Hg. destruct (below_cases _ _ _ Hb) as [->|Hs].
+    + rewrite (In_find_ty _ _ (wf_nodup _ W) Hin) in Ha. inversion Ha; subst ta.
+      apply all_features_complete. apply in_or_app. left. exact Hg.
+    + destruct (wf_inh_complete _ F t a ta g Hin Hs Ha Hg) as (f0 & Hf0 & He).
+      destruct (all_features_complete t f0 (in_or_app _ _ _ (or_intror Hf0))) as (y & Hy & Hey).
+      exists y. split; [exact Hy|eapply feat_eqb_trans; eassumption].
+Qed.
+(* Type.get_feature finds exactly the effective features, by name *)
+Theorem get_feature_spec ts t n : WFh ts -> WFf ts -> In t ts ->
+  (forall f, get_feature t n = Some f -> f_name f = n /\ In f (t_own t ++ t_inh t) /\
+             exists y, In y (all_features t) /\ feat_eqb y f = true) /\
+  (get_feature t n = None <-> ~ In n (feature_names t)).
+Proof.
+  intros W F Hin. unfold get_feature. split.
+  - intros f H. assert (Hf : In f (t_own t ++ t_inh t) /\ f_name f = n).
+    { destruct (find_feat n (t_own t)) as [g|] eqn:Eo.
+      - inversion H; subst g. destruct (find_feat_some _ _ _ Eo). split; [apply in_or_app; left|]; assumption.
+      - destruct (find_feat_some _ _ _ H). split; [apply in_or_app; right|]; assumption. }
+    destruct Hf as [Hf Hn]. repeat split; auto. apply all_features_complete. exact Hf.
+  - split.
+    + intros H Hn. apply in_map_iff in Hn. destruct Hn as (y & Hyn & Hy). apply all_features_In in Hy.
+      destruct (find_feat n (t_own t)) eqn:Eo; [discriminate|].
+      apply in_app_or in Hy. destruct Hy as [Hy|Hy]; [eapply (find_feat_none _ _ Eo)|eapply (find_feat_none _ _ H)]; eassumption.
+    + intros Hn. assert (Hnone : forall g, In g (t_own t ++ t_inh t) -> f_name g <> n).
+      { intros g Hg E. destruct (all_features_complete t g Hg) as (y & Hy & He). apply Hn. apply in_map_iff. exists y.
+        split; [rewrite (feat_eqb_name _ _ He); exact E|exact Hy]. }
+      rewrite (find_feat_none_intro (t_own t) n); [|intros g Hg; apply Hnone, in_or_app; left; exact Hg].
+      apply find_feat_none_intro. intros g Hg. apply Hnone, in_or_app. right. exact Hg.
+Qed.
+
+(* ================================================================================================ create_type preserves WFf *)
+Lemma feature_names_add_child sup name t : feature_names (add_child sup name t) = feature_names t.
+Proof. unfold feature_names, all_features. rewrite add_child_own, add_child_inh. reflexivity. Qed.
+
+Theorem create_type_WFf ts name supn desc ts' : WFh ts -> WFf ts -> create_type ts name supn desc = Ok ts' -> WFf ts'.
+Proof.
+  intros W F Hc. destruct (create_type_inv _ _ _ _ _ W Hc) as (Hnone & Hntop & p & inh0 & Hgt & Hpin & Hfinal & Hinh & ->).
+  (* the loop over supertype.all_features simply copies them: the names are distinct *)
+  assert (Einh : inh0 = all_features p).
+  { rewrite (inherit_all_nodup (all_features p) []) in Hinh; [inversion Hinh; reflexivity| |intros g x []].
+    apply (no_two_definitions ts p F Hpin). }
+  subst inh0.
+  set (sup := t_name p). set (new := new_type name p desc (all_features p)).
+  assert (Nn : t_name new = name) by reflexivity.
+  assert (Ns : t_super new = Some sup) by reflexivity.
+  assert (No : t_own new = []) by reflexivity.
+  assert (Ni : t_inh new = all_features p) by reflexivity.
+  assert (Nc : t_ctor new = None) by reflexivity.
+  assert (Nf : t_ctor_fn new = feature_names new) by reflexivity.
+  clearbody new.
+  pose proof (proj1 (find_ty_none_iff ts name) Hnone) as Hfresh.
+  assert (Ep : find_ty ts sup = Some p) by (apply (In_find_ty _ _ (wf_nodup _ W) Hpin)).
+  assert (Hfind : forall n, find_ty (map (add_child sup name) ts ++ [new]) n =
+            match find_ty ts n with Some t => Some (add_child sup name t) | None => if String.eqb name n then Some new else None end).
+  { intros n. rewrite find_app_new, find_map_add_child, Nn. destruct (find_ty ts n); reflexivity. }
+  assert (Hsup_ne : sup <> name) by (intros E; rewrite E in Ep; congruence).
+  assert (Hfwd : forall n t, find_ty ts n = Some t ->
+            exists t', find_ty (map (add_child sup name) ts ++ [new]) n = Some t' /\ t_super t' = t_super t).
+  { intros n t Hn. exists (add_child sup name t). rewrite Hfind, Hn. split; [reflexivity|apply add_child_super]. }
+  assert (Hbwd : forall n t', n <> name -> find_ty (map (add_child sup name) ts ++ [new]) n = Some t' ->
+            exists t, find_ty ts n = Some t /\ t_super t = t_super t').
+  { intros n t' Hn Hf'. rewrite Hfind in Hf'. destruct (find_ty ts n) as [t|] eqn:En.
+    - inversion Hf'; subst t'. exists t. split; [reflexivity|symmetry; apply add_child_super].
+    - destruct (String.eqb name n) eqn:E; [apply String.eqb_eq in E; congruence|discriminate]. }
+  (* proper ancestors of an existing type are the same in both type systems *)
+  assert (Hsb : forall a d, find_ty ts d <> None ->
+            (sbelow (map (add_child sup name) ts ++ [new]) a d <-> sbelow ts a d)).
+  { intros a d Hd. destruct (find_ty ts d) as [td|] eqn:Ed; [clear Hd|congruence]. split.
+    - intros (td' & s & Hf' & Hs' & Hb'). rewrite Hfind, Ed in Hf'. inversion Hf'; subst td'. rewrite add_child_super in Hs'.
+      exists td, s. repeat split; auto.
+      eapply below_back; [exact W|exact Hnone|exact Hbwd|exact Hb'|].
+      destruct (find_ty_In _ _ _ Ed) as [Hin _]. destruct (wf_super _ W td s Hin Hs') as (q & Hq & _). intros ->. congruence.
+    - intros (td0 & s & Hf0 & Hs0 & Hb0). rewrite Ed in Hf0. inversion Hf0; subst td0.
+      exists (add_child sup name td), s. rewrite Hfind, Ed, add_child_super. repeat split; auto.
+      eapply below_transfer; [exact Hfwd|exact Hb0]. }
+  (* an ancestor of an existing type exists already, so its own features are unchanged *)
+  assert (Hown : forall a ta' d, find_ty ts d <> None -> sbelow ts a d ->
+            find_ty (map (add_child sup name) ts ++ [new]) a = Some ta' ->
+            exists ta, find_ty ts a = Some ta /\ t_own ta' = t_own ta).
+  { intros a ta' d Hd Hs Ha'. pose proof (below_registered ts a d W (sbelow_below _ _ _ Hs) Hd) as Hreg.
+    rewrite Hfind in Ha'. destruct (find_ty ts a) as [ta|] eqn:Ea; [|congruence].
+    inversion Ha'; subst ta'. exists ta. split; [reflexivity|apply add_child_own]. }
+  assert (Hpd : find_ty ts sup <> None) by (rewrite Ep; discriminate).
+  assert (Hnew : forall a, sbelow (map (add_child sup name) ts ++ [new]) a name <-> below ts a sup).
+  { intros a. split.
+    - intros (td' & s & Hf' & Hs' & Hb'). rewrite Hfind, Hnone, String.eqb_refl in Hf'. inversion Hf'; subst td'.
+      rewrite Ns in Hs'. inversion Hs'; subst s.
+      eapply below_back; [exact W|exact Hnone|exact Hbwd|exact Hb'|exact Hsup_ne].
+    - intros Hb. exists new, sup. rewrite Hfind, Hnone, String.eqb_refl. repeat split; auto.
+      eapply below_transfer; [exact Hfwd|exact Hb]. }
+  constructor.
+  - (* inherited features come from proper ancestors *)
+    intros t f Hin Hf. apply in_app_or in Hin. destruct Hin as [Hin|[<-|[]]].
+    + apply in_map_iff in Hin. destruct Hin as (t0 & <- & Hin0). rewrite add_child_inh in Hf. rewrite add_child_name.
+      assert (Hd : find_ty ts (t_name t0) <> None) by (rewrite (In_find_ty _ _ (wf_nodup _ W) Hin0); discriminate).
+      destruct (wf_inh_sound _ F t0 f Hin0 Hf) as (a & ta & Hs & Ha & Hfa).
+      exists a, (add_child sup name ta). rewrite Hfind, Ha, add_child_own. repeat split; auto. apply Hsb; assumption.
+    + rewrite Ni in Hf. rewrite Nn. apply all_features_In in Hf. apply in_app_or in Hf. destruct Hf as [Hf|Hf].
+      * exists sup, (add_child sup name p). rewrite Hfind, Ep, add_child_own. repeat split; auto. apply Hnew. apply below_refl.
+      * destruct (wf_inh_sound _ F p f Hpin Hf) as (a & ta & Hs & Ha & Hfa).
+        exists a, (add_child sup name ta). rewrite Hfind, Ha, add_child_own. repeat split; auto.
+        apply Hnew. apply sbelow_below. exact Hs.
+  - (* own features of proper ancestors are inherited *)
+    intros t a ta' g Hin Hs Ha' Hg. apply in_app_or in Hin. destruct Hin as [Hin|[<-|[]]].
+    + apply in_map_iff in Hin. destruct Hin as (t0 & <- & Hin0). rewrite add_child_name in Hs. rewrite add_child_inh.
+      assert (Hd : find_ty ts (t_name t0) <> None) by (rewrite (In_find_ty _ _ (wf_nodup _ W) Hin0); discriminate).
+      apply Hsb in Hs; [|exact Hd]. destruct (Hown a ta' _ Hd Hs Ha') as (ta & Ha & Heq). rewrite Heq in Hg.
+      apply (wf_inh_complete _ F t0 a ta g Hin0 Hs Ha Hg).
+    + rewrite Nn in Hs. rewrite Ni. apply Hnew in Hs. destruct (below_cases _ _ _ Hs) as [->|Hs'].
+      * rewrite Hfind, Ep in Ha'. inversion Ha'; subst ta'. rewrite add_child_own in Hg.
+        apply all_features_complete. apply in_or_app. left. exact Hg.
+      * destruct (Hown a ta' sup Hpd Hs' Ha') as (ta & Ha & Heq). rewrite Heq in Hg.
+        destruct (wf_inh_complete _ F p a ta g Hpin Hs' Ha Hg) as (f0 & Hf0 & He).
+        destruct (all_features_complete p f0 (in_or_app _ _ _ (or_intror Hf0))) as (y & Hy & Hey).
+        exists y. split; [exact Hy|eapply feat_eqb_trans; eassumption].
+  - (* one definition per name *)
+    intros t f g Hin Hf Hg' Hn. apply in_app_or in Hin. destruct Hin as [Hin|[<-|[]]].
+    + apply in_map_iff in Hin. destruct Hin as (t0 & <- & Hin0).
+      rewrite add_child_own, add_child_inh in Hf, Hg'. eapply (wf_one_def _ F t0); eassumption.
+    + rewrite No, Ni in Hf, Hg'. cbn [app] in Hf, Hg'. apply all_features_In in Hf. apply all_features_In in Hg'.
+      eapply (wf_one_def _ F p); eassumption.
+  - (* constructors *)
+    intros t Hin. apply in_app_or in Hin. destruct Hin as [Hin|[<-|[]]].
+    + apply in_map_iff in Hin. destruct Hin as (t0 & <- & Hin0). rewrite feature_names_add_child.
+      destruct (add_child_ctor sup name t0) as [-> ->]. apply (wf_ctor _ F t0 Hin0).
+    + rewrite Nc, Nf. auto.
+Qed.
+
+(* ================================================================================================ _add_feature (functional form) preserves WFf *)
+Lemma is_below_spec ts a d td : WFh ts -> find_ty ts d = Some td -> (is_below ts a d = true <-> below ts a d).
+Proof.
+  intros W Hf. unfold is_below. rewrite Hf. destruct (find_ty_In _ _ _ Hf) as [Hin Hn].
+  destruct (walks_up_spec ts a W (S (t_rank td)) td Hin ltac:(lia)) as (r & Hr & Hiff).
+  rewrite Hn in Hr, Hiff. rewrite Hr. destruct r.
+  - split; [intros _; apply Hiff; reflexivity|reflexivity].
+  - split; [discriminate|]. intros Hb. apply Hiff in Hb. discriminate.
+Qed.
+Lemma below_spread ts dom f a d : below (map (spread ts dom f) ts) a d <-> below ts a d.
+Proof.
+  pose proof (spread_shape ts dom f) as K. split.
+  - intros H. induction H as [|d td' s Hf' Hs' Hb IH]; [apply below_refl|].
+    rewrite (find_map_shape ts _ d K) in Hf'. destruct (find_ty ts d) as [td|] eqn:E; [|discriminate].
+    inversion Hf'; subst td'. rewrite (proj1 (proj2 (K td))) in Hs'. eapply below_step; eassumption.
+  - apply below_transfer. intros n t Hn. exists (spread ts dom f t). rewrite (find_map_shape ts _ n K), Hn.
+    split; [reflexivity|apply (proj1 (proj2 (K t)))].
+Qed.
+Lemma sbelow_spread ts dom f a d : sbelow (map (spread ts dom f) ts) a d <-> sbelow ts a d.
+Proof.
+  pose proof (spread_shape ts dom f) as K. unfold sbelow. split.
+  - intros (td' & s & Hf' & Hs' & Hb). rewrite (find_map_shape ts _ d K) in Hf'. destruct (find_ty ts d) as [td|] eqn:E; [|discriminate].
+    inversion Hf'; subst td'. rewrite (proj1 (proj2 (K td))) in Hs'. exists td, s. repeat split; auto. apply below_spread in Hb. exact Hb.
+  - intros (td & s & Hf & Hs & Hb). exists (spread ts dom f td), s. rewrite (find_map_shape ts _ d K), Hf, (proj1 (proj2 (K td))).
+    repeat split; auto. apply below_spread. exact Hb.
+Qed.
+Lemma conflicts_false l f : conflicts l f = false -> forall g, In g l -> f_name g = f_name f -> feat_eqb g f = true.
+Proof.
+  intros H g Hg Hn. unfold conflicts in H.
+  assert (Hx : (named (f_name f) g && negb (feat_eqb g f)) = false).
+  { destruct (named (f_name f) g && negb (feat_eqb g f)) eqn:E; [|reflexivity].
+    assert (existsb (fun g0 => named (f_name f) g0 && negb (feat_eqb g0 f)) l = true) by (apply existsb_exists; eauto). congruence. }
+  unfold named in Hx. rewrite Hn, String.eqb_refl in Hx. cbn [andb] in Hx. apply negb_false_iff in Hx. exact Hx.
+Qed.
+Lemma spread_untouched_or_rebuilt ts dom f d :
+  spread ts dom f d = d \/ (t_ctor (spread ts dom f d) = None /\ t_ctor_fn (spread ts dom f d) = feature_names (spread ts dom f d)).
+Proof.
+  unfold spread. destruct (String.eqb (t_name d) dom); [right; split; reflexivity|].
+  destruct (is_below ts dom (t_name d) && _); [right; split; reflexivity|left; reflexivity].
+Qed.
+
+Theorem add_feature_WFf ts dom f ts' : WFh ts -> WFf ts -> add_feature ts dom f = Added ts' -> WFf ts'.
+Proof.
+  intros W F H. destruct (add_feature_added_inv _ _ _ _ H) as (t & Et & Eo & Ei & Ec & ->).
+  pose proof (spread_shape ts dom f) as K.
+  destruct (find_ty_In _ _ _ Et) as [Htin Htn].
+  pose proof (find_feat_none _ _ Eo) as Hown_free. pose proof (find_feat_none _ _ Ei) as Hinh_free.
+  (* the pre-check: no type below the domain defines the name differently *)
+  assert (Hpre : forall d, In d ts -> below ts dom (t_name d) -> forall g, In g (t_own d) -> f_name g = f_name f -> feat_eqb g f = true).
+  { intros d Hd Hb g Hg Hn.
+    assert (Hx : (is_below ts dom (t_name d) && conflicts (t_own d) f) = false).
+    { destruct (is_below ts dom (t_name d) && conflicts (t_own d) f) eqn:E; [|reflexivity].
+      assert (existsb (fun d0 => is_below ts dom (t_name d0) && conflicts (t_own d0) f) ts = true) by (apply existsb_exists; eauto).
+      congruence. }
+    apply (is_below_spec ts dom (t_name d) d W (In_find_ty _ _ (wf_nodup _ W) Hd)) in Hb. rewrite Hb in Hx. cbn [andb] in Hx.
+    eapply conflicts_false; eassumption. }
+  (* strictly below the domain  =  below it and different from it *)
+  assert (Hstrict : forall d, In d ts -> (t_name d <> dom /\ is_below ts dom (t_name d) = true) <-> sbelow ts dom (t_name d)).
+  { intros d Hd. rewrite (is_below_spec ts dom (t_name d) d W (In_find_ty _ _ (wf_nodup _ W) Hd)). split.
+    - intros [Hn Hb]. destruct (below_cases _ _ _ Hb) as [Heq|Hs]; [exfalso; apply Hn; symmetry; exact Heq|exact Hs].
+    - intros Hs. split; [intros E; apply (sbelow_neq _ _ _ W Hs); symmetry; exact E|apply sbelow_below; exact Hs]. }
+  (* an old feature with the new feature's name, seen from a type below the domain, equals the new feature *)
+  assert (Hold : forall t0 x, In t0 ts -> below ts dom (t_name t0) -> In x (t_own t0 ++ t_inh t0) -> f_name x = f_name f -> feat_eqb x f = true).
+  { intros t0 x Hin0 Hb Hx Hn. apply in_app_or in Hx. destruct Hx as [Hx|Hx].
+    - eapply Hpre; eassumption.
+    - destruct (wf_inh_sound _ F t0 x Hin0 Hx) as (a & ta & Hs & Ha & Hg).
+      destruct (find_ty_In _ _ _ Ha) as [Hain Han].
+      destruct (chain_linear ts a dom (t_name t0) (sbelow_below _ _ _ Hs) Hb) as [Hadom|Hdoma].
+      + (* a is the domain or above it *)
+        destruct (below_cases _ _ _ Hadom) as [->|Hs'].
+        * rewrite Et in Ha. inversion Ha; subst ta. exfalso. apply (Hown_free x Hg). exact Hn.
+        * exfalso. rewrite <- Htn in Hs'. destruct (wf_inh_complete _ F t a ta x Htin Hs' Ha Hg) as (f1 & Hf1 & He).
+          apply (Hinh_free f1 Hf1). rewrite (feat_eqb_name _ _ He). exact Hn.
+      + (* a is below the domain: the pre-check speaks about it *)
+        rewrite <- Han in Hdoma. eapply (Hpre ta); eassumption. }
+  constructor.
+  - (* sound *)
+    intros t' g Hin Hg. apply in_map_iff in Hin. destruct Hin as (t0 & <- & Hin0). rewrite (proj1 (K t0)).
+    apply inh_spread in Hg. destruct Hg as [Hg|(Hn & Hb & _ & ->)].
+    + destruct (wf_inh_sound _ F t0 g Hin0 Hg) as (a & ta & Hs & Ha & Hga).
+      exists a, (spread ts dom f ta). rewrite (find_map_shape ts _ a K), Ha. repeat split; auto.
+      * apply (proj2 (sbelow_spread ts dom f a (t_name t0))). exact Hs.
+      * apply own_spread. left. exact Hga.
+    + exists dom, (spread ts dom f t). rewrite (find_map_shape ts _ dom K), Et. repeat split; auto.
+      * apply (proj2 (sbelow_spread ts dom f dom (t_name t0))). apply (proj1 (Hstrict t0 Hin0)). split; assumption.
+      * apply own_spread. right. auto.
+  - (* complete *)
+    intros t' a ta' g Hin Hs Ha' Hg. apply in_map_iff in Hin. destruct Hin as (t0 & <- & Hin0). rewrite (proj1 (K t0)) in Hs.
+    apply (proj1 (sbelow_spread ts dom f a (t_name t0))) in Hs.
+    rewrite (find_map_shape ts _ a K) in Ha'. destruct (find_ty ts a) as [ta|] eqn:Ea; [|discriminate]. inversion Ha'; subst ta'.
+    apply own_spread in Hg. destruct Hg as [Hg|[Hn ->]].
+    + destruct (wf_inh_complete _ F t0 a ta g Hin0 Hs Ea Hg) as (f0 & Hf0 & He).
+      exists f0. split; [apply inh_spread; left; exact Hf0|exact He].
+    + destruct (find_ty_In _ _ _ Ea) as [_ Hna]. rewrite Hn in Hna. subst a.
+      destruct (proj2 (Hstrict t0 Hin0) Hs) as [H1 H2].
+      destruct (find_feat (f_name f) (t_inh t0)) as [g0|] eqn:Eg.
+      * destruct (find_feat_some _ _ _ Eg) as [Hg0 Hn0]. exists g0. split; [apply inh_spread; left; exact Hg0|].
+        apply (Hold t0 g0 Hin0 (sbelow_below _ _ _ Hs)); [apply in_or_app; right; exact Hg0|exact Hn0].
+      * exists f. split; [apply inh_spread; right; repeat split; auto|apply feat_eqb_refl].
+  - (* one definition per name *)
+    assert (Hcases : forall t0 x, In t0 ts -> In x (t_own (spread ts dom f t0) ++ t_inh (spread ts dom f t0)) ->
+              In x (t_own t0 ++ t_inh t0) \/ (x = f /\ below ts dom (t_name t0))).
+    { intros t0 x Hin0 Hx. apply in_app_or in Hx. destruct Hx as [Hx|Hx].
+      - apply own_spread in Hx. destruct Hx as [Hx|[Hn ->]]; [left; apply in_or_app; left; exact Hx|].
+        right. split; [reflexivity|]. rewrite Hn. apply below_refl.
+      - apply inh_spread in Hx. destruct Hx as [Hx|(Hn & Hb & _ & ->)]; [left; apply in_or_app; right; exact Hx|].
+        right. split; [reflexivity|]. apply (is_below_spec ts dom (t_name t0) t0 W (In_find_ty _ _ (wf_nodup _ W) Hin0)). exact Hb. }
+    intros t' x y Hin Hx Hy Hn. apply in_map_iff in Hin. destruct Hin as (t0 & <- & Hin0).
+    destruct (Hcases t0 x Hin0 Hx) as [Hx'|[-> Hbx]]; destruct (Hcases t0 y Hin0 Hy) as [Hy'|[-> Hby]].
+    + eapply (wf_one_def _ F t0); eassumption.
+    + eapply Hold; eassumption.
+    + apply feat_eqb_sym. eapply Hold; try eassumption. symmetry. exact Hn.
+    + apply feat_eqb_refl.
+  - (* constructors *)
+    intros t' Hin. apply in_map_iff in Hin. destruct Hin as (t0 & <- & Hin0).
+    destruct (spread_untouched_or_rebuilt ts dom f t0) as [->|[-> ->]]; [apply (wf_ctor _ F t0 Hin0)|auto].
+Qed.
+
+(* ================================================================================================ instantiation, histories *)
+Theorem instantiate_spec ts n t : WFh ts -> WFf ts -> get_type ts n = Ok t ->
+  exists ts', instantiate ts n = Ok (ts', feature_names t) /\ WFf ts'.
+Proof.
+  intros W F Hg. destruct (get_type_ok_inv _ _ _ Hg) as [Hin _]. unfold instantiate. rewrite Hg. cbn [bind].
+  destruct (wf_ctor _ F t Hin) as [Hfn Hc].
+  assert (Efields : match t_ctor t with Some l => l | None => t_ctor_fn t end = feature_names t)
+    by (destruct Hc as [->| ->]; [exact Hfn|reflexivity]).
+  rewrite Efields. eexists. split; [reflexivity|].
+  set (g := fun t0 => if String.eqb (t_name t0) (t_name t) then set_ctor (Some (feature_names t)) t0 else t0).
+  assert (K : keeps_shape g) by (apply upd_ctor_shape).
+  assert (Kown : forall t0, t_own (g t0) = t_own t0 /\ t_inh (g t0) = t_inh t0)
+    by (intros t0; unfold g; destruct (String.eqb (t_name t0) (t_name t)); split; reflexivity).
+  assert (Kb : forall a d, below (map g ts) a d <-> below ts a d).
+  { intros a d. split.
+    - intros H. induction H as [|d td' s Hf' Hs' Hb IH]; [apply below_refl|].
+      rewrite (find_map_shape ts g d K) in Hf'. destruct (find_ty ts d) as [td|] eqn:E; [|discriminate].
+      inversion Hf'; subst td'. rewrite (proj1 (proj2 (K td))) in Hs'. eapply below_step; eassumption.
+    - apply below_transfer. intros n0 t0 Hn. exists (g t0). rewrite (find_map_shape ts g n0 K), Hn.
+      split; [reflexivity|apply (proj1 (proj2 (K t0)))]. }
+  assert (Ksb : forall a d, sbelow (map g ts) a d <-> sbelow ts a d).
+  { intros a d. unfold sbelow. split.
+    - intros (td' & s & Hf' & Hs' & Hb). rewrite (find_map_shape ts g d K) in Hf'. destruct (find_ty ts d) as [td|] eqn:E; [|discriminate].
+      inversion Hf'; subst td'. rewrite (proj1 (proj2 (K td))) in Hs'. exists td, s. repeat split; auto. apply Kb. exact Hb.
+    - intros (td & s & Hf & Hs & Hb). exists (g td), s. rewrite (find_map_shape ts g d K), Hf, (proj1 (proj2 (K td))).
+      repeat split; auto. apply Kb. exact Hb. }
+  unfold upd_ty. fold g. constructor.
+  - intros t' f Hin' Hf. apply in_map_iff in Hin'. destruct Hin' as (t0 & <- & Hin0).
+    rewrite (proj2 (Kown t0)) in Hf. rewrite (proj1 (K t0)).
+    destruct (wf_inh_sound _ F t0 f Hin0 Hf) as (a & ta & Hs & Ha & Hfa).
+    exists a, (g ta). rewrite (find_map_shape ts g a K), Ha, (proj1 (Kown ta)). repeat split; auto. apply Ksb. exact Hs.
+  - intros t' a ta' f Hin' Hs Ha' Hf. apply in_map_iff in Hin'. destruct Hin' as (t0 & <- & Hin0).
+    rewrite (proj1 (K t0)) in Hs. apply Ksb in Hs. rewrite (proj2 (Kown t0)).
+    rewrite (find_map_shape ts g a K) in Ha'. destruct (find_ty ts a) as [ta|] eqn:Ea; [|discriminate]. inversion Ha'; subst ta'.
+    rewrite (proj1 (Kown ta)) in Hf. apply (wf_inh_complete _ F t0 a ta f Hin0 Hs Ea Hf).
+  - intros t' x y Hin' Hx Hy Hn. apply in_map_iff in Hin'. destruct Hin' as (t0 & <- & Hin0).
+    rewrite (proj1 (Kown t0)), (proj2 (Kown t0)) in Hx, Hy. eapply (wf_one_def _ F t0); eassumption.
+  - intros t' Hin'. apply in_map_iff in Hin'. destruct Hin' as (t0 & <- & Hin0).
+    assert (Efn : feature_names (g t0) = feature_names t0) by (unfold feature_names, all_features; rewrite (proj1 (Kown t0)), (proj2 (Kown t0)); reflexivity).
+    rewrite Efn. unfold g. destruct (String.eqb (t_name t0) (t_name t)) eqn:E; [|apply (wf_ctor _ F t0 Hin0)].
+    apply String.eqb_eq in E. cbn [set_ctor t_ctor t_ctor_fn].
+    assert (t0 = t).
+    { pose proof (In_find_ty _ _ (wf_nodup _ W) Hin0) as H0. pose proof (In_find_ty _ _ (wf_nodup _ W) Hin) as H1.
+      rewrite E in H0. congruence. }
+    subst t0. split; [apply (wf_ctor _ F t Hin)|right; reflexivity].
+Qed.
+
+Theorem step_WF ts o : WF ts -> WF (fst (step ts o)).
+Proof.
+  intros [W F]. split; [apply step_WFh; exact W|].
+  destruct o as [n s d|dom n r e m d|n]; cbn [step].
+  - destruct (create_type ts n s d) eqn:E; cbn [fst]; try exact F. eapply create_type_WFf; eassumption.
+  - unfold create_feature. destruct (make_feature ts dom n r e m d) as [f| |]; cbn [fst]; try exact F.
+    destruct (add_feature ts (f_dom f) f) eqn:E; cbn [fst]; try exact F. eapply add_feature_WFf; eassumption.
+  - destruct (instantiate ts n) as [[ts' kws]| |] eqn:E; cbn [fst]; try exact F.
+    unfold instantiate in E. destruct (get_type ts n) as [t| |] eqn:Eg; cbn [bind] in E; try discriminate.
+    destruct (instantiate_spec ts n t W F Eg) as (ts2 & H2 & F2). unfold instantiate in H2. rewrite Eg in H2. cbn [bind] in H2.
+    rewrite E in H2. inversion H2; subst. exact F2.
+Qed.
+Theorem run_WF ops : forall ts, WF ts -> WF (final_ts ops ts).
+Proof.
+  unfold final_ts, run_ts. induction ops as [|o r IH]; intros ts W; [exact W|].
+  rewrite run_with_cons. cbn [fst]. apply IH. apply step_WF. exact W.
+Qed.
+(* the bare TOP that TypeSystem.__init__ starts from *)
+Lemma top_WF : WF [top_ty].
+Proof.
+  split; [apply wfhb_sound; vm_compute; reflexivity|]. constructor.
+  - intros t f [<-|[]] [].
+  - intros t a ta g [<-|[]] (td & s & Hf & Hs & _). unfold find_ty in Hf. cbn in Hf. inversion Hf; subst td. discriminate Hs.
+  - intros t f g [<-|[]] [].
+  - intros t [<-|[]]. split; [reflexivity|left; reflexivity].
+Qed.
+(* TypeSystem(): WF by construction (the model runs the statements of __init__), and every history from it *)
+Theorem init_WF : WF init_ts.
+Proof. apply run_WF. apply top_WF. Qed.
+Theorem init_nodoc_WF : WF init_ts_nodoc.
+Proof. apply run_WF. apply top_WF. Qed.
+Theorem reachable_WF ops : WF (final_ts ops init_ts).
+Proof. apply run_WF. apply init_WF. Qed.
+
+(* ================================================================================================ redefinitions *)
+(* redefining an own or inherited feature identically (Feature.__eq__) adds nothing: a warning only *)
+Theorem identical_redefinition_noop ts dom t f g : WFh ts -> WFf ts -> find_ty ts dom = Some t ->
+  In g (t_own t ++ t_inh t) -> f_name g = f_name f -> feat_eqb g f = true -> add_feature ts dom f = Unchanged.
+Proof.
+  intros W F Et Hg Hn He. destruct (find_ty_In _ _ _ Et) as [Hin _]. unfold add_feature. rewrite Et.
+  assert (Hsame : forall x, In x (t_own t ++ t_inh t) -> f_name x = f_name f -> feat_eqb x f = true).
+  { intros x Hx Hnx. eapply feat_eqb_trans; [|exact He]. apply (wf_one_def _ F t x g Hin Hx Hg). congruence. }
+  destruct (find_feat (f_name f) (t_own t)) as [x|] eqn:Eo.
+  - destruct (find_feat_some _ _ _ Eo) as [Hx Hnx]. rewrite (Hsame x (in_or_app _ _ _ (or_introl Hx)) Hnx). reflexivity.
+  - destruct (find_feat (f_name f) (t_inh t)) as [x|] eqn:Ei.
+    + destruct (find_feat_some _ _ _ Ei) as [Hx Hnx]. rewrite (Hsame x (in_or_app _ _ _ (or_intror Hx)) Hnx). reflexivity.
+    + exfalso. apply in_app_or in Hg. destruct Hg as [Hg|Hg]; [apply (find_feat_none _ _ Eo g Hg Hn)|apply (find_feat_none _ _ Ei g Hg Hn)].
+Qed.
+(* a different definition under the same name is refused whichever of ancestor and descendant came first:
+   (1) the type already has the name, own or inherited from an ancestor *)
+Theorem conflict_ancestor_first ts d td f g : WFh ts -> WFf ts -> find_ty ts d = Some td -> In f (t_own td ++ t_inh td) ->
+  f_name g = f_name f -> feat_eqb f g = false -> add_feature ts d g = Raises EValue.
+Proof.
+  intros W F Ed Hf Hn Hne. destruct (find_ty_In _ _ _ Ed) as [Hdin _].
+  assert (Hdiff : forall x, In x (t_own td ++ t_inh td) -> f_name x = f_name g -> feat_eqb x g = false).
+  { intros x Hx Hnx. destruct (feat_eqb x g) eqn:E; [|reflexivity]. exfalso.
+    assert (feat_eqb f x = true) by (apply (wf_one_def _ F td f x Hdin Hf Hx); congruence).
+    rewrite (feat_eqb_trans f x g H E) in Hne. discriminate. }
+  unfold add_feature. rewrite Ed.
+  destruct (find_feat (f_name g) (t_own td)) as [x|] eqn:Eo.
+  - destruct (find_feat_some _ _ _ Eo) as [Hx Hnx]. rewrite (Hdiff x (in_or_app _ _ _ (or_introl Hx)) Hnx). reflexivity.
+  - destruct (find_feat (f_name g) (t_inh td)) as [x|] eqn:Ei.
+    + destruct (find_feat_some _ _ _ Ei) as [Hx Hnx]. rewrite (Hdiff x (in_or_app _ _ _ (or_intror Hx)) Hnx). reflexivity.
+    + exfalso. apply in_app_or in Hf. destruct Hf as [Hf|Hf]; [apply (find_feat_none _ _ Eo f Hf)|apply (find_feat_none _ _ Ei f Hf)]; congruence.
+Qed.
+(* (2) a type below the domain defines the name differently *)
+Theorem conflict_descendant_first ts dom t d g f : WFh ts -> WFf ts -> find_ty ts dom = Some t -> In d ts -> below ts dom (t_name d) ->
+  In g (t_own d) -> f_name g = f_name f -> feat_eqb g f = false -> add_feature ts dom f = Raises EValue.
+Proof.
+  intros W F Et Hd Hb Hg Hn Hne. destruct (find_ty_In _ _ _ Et) as [Htin Htn].
+  unfold add_feature. rewrite Et.
+  (* whatever the domain offers under that name is seen by d too, so it differs from f as well *)
+  assert (Hsee : forall x, In x (t_own t ++ t_inh t) -> f_name x = f_name f -> feat_eqb x f = false).
+  { intros x Hx Hnx. destruct (feat_eqb x f) eqn:E; [|reflexivity]. exfalso.
+    assert (Hdx : exists y, In y (t_own d ++ t_inh d) /\ feat_eqb y x = true).
+    { destruct (below_cases _ _ _ Hb) as [Heq|Hs].
+      - assert (d = t). { rewrite Heq in Et. rewrite (In_find_ty _ _ (wf_nodup _ W) Hd) in Et. inversion Et. reflexivity. }
+        subst d. exists x. split; [exact Hx|apply feat_eqb_refl].
+      - apply in_app_or in Hx. destruct Hx as [Hx|Hx].
+        + destruct (wf_inh_complete _ F d dom t x Hd Hs Et Hx) as (y & Hy & He). exists y. split; [apply in_or_app; right; exact Hy|exact He].
+        + destruct (wf_inh_sound _ F t x Htin Hx) as (a & ta & Hsa & Ha & Hxa). rewrite Htn in Hsa.
+          assert (Hsd : sbelow ts a (t_name d)).
+          { destruct Hs as (td & s & Hfd & Hsd & Hbd). exists td, s. repeat split; auto.
+            eapply below_trans; [apply sbelow_below; exact Hsa|exact Hbd]. }
+          destruct (wf_inh_complete _ F d a ta x Hd Hsd Ha Hxa) as (y & Hy & He). exists y. split; [apply in_or_app; right; exact Hy|exact He]. }
+    destruct Hdx as (y & Hy & Hey).
+    assert (feat_eqb g y = true).
+    { apply (wf_one_def _ F d g y Hd (in_or_app _ _ _ (or_introl Hg)) Hy). rewrite (feat_eqb_name _ _ Hey). congruence. }
+    rewrite (feat_eqb_trans g x f (feat_eqb_trans g y x H Hey) E) in Hne. discriminate. }
+  destruct (find_feat (f_name f) (t_own t)) as [x|] eqn:Eo.
+  - destruct (find_feat_some _ _ _ Eo) as [Hx Hnx]. rewrite (Hsee x (in_or_app _ _ _ (or_introl Hx)) Hnx). reflexivity.
+  - destruct (find_feat (f_name f) (t_inh t)) as [x|] eqn:Ei.
+    + destruct (find_feat_some _ _ _ Ei) as [Hx Hnx]. rewrite (Hsee x (in_or_app _ _ _ (or_intror Hx)) Hnx). reflexivity.
+    + assert (Hex : existsb (fun d0 => is_below ts dom (t_name d0) && conflicts (t_own d0) f) ts = true).
+      { apply existsb_exists. exists d. split; [exact Hd|].
+        rewrite (proj2 (is_below_spec ts dom (t_name d) d W (In_find_ty _ _ (wf_nodup _ W) Hd)) Hb). cbn [andb].
+        unfold conflicts. apply existsb_exists. exists g. split; [exact Hg|].
+        unfold named. rewrite Hn, String.eqb_refl, Hne. reflexivity. }
+      rewrite Hex. reflexivity.
+Qed.
+(* a different range is a different definition *)
+Lemma range_differs_not_eq f g : f_range f <> f_range g -> feat_eqb f g = false.
+Proof. intros H. destruct (feat_eqb f g) eqn:E; [|reflexivity]. apply feat_eqb_range in E. contradiction. Qed.
+(* at the level of histories: a refused create_feature yields ValueError and the type system is unchanged *)
+Theorem create_feature_conflict_step ts dom n r e m d f : make_feature ts dom n r e m d = Ok f ->
+  add_feature ts (f_dom f) f = Raises EValue ->
+  step ts (OCreateFeature dom n r e m d) = (ts, RErr EValue).
+Proof. intros Hm Ha. cbn [step]. unfold create_feature. rewrite Hm, Ha. reflexivity. Qed.
+
+(* ================================================================================================ the constructor *)
+(* Type.__call__ accepts exactly the effective feature names - whatever was instantiated before whichever feature was added *)
+Theorem ctor_accepts_exactly_all_features ts n t kw : WFh ts -> WFf ts -> get_type ts n = Ok t ->
+  ctor_accepts ts n kw = Ok (memb kw (feature_names t)).
+Proof.
+  intros W F Hg. unfold ctor_accepts. destruct (instantiate_spec ts n t W F Hg) as (ts' & -> & _). reflexivity.
+Qed.
+
+(* ================================================================================================ the boolean checker for WFf *)
+Lemma ancestors_spec ts : WFh ts -> forall k t, In t ts -> t_rank t < k ->
+  forall a, In a (ancestors k ts (t_name t)) <-> sbelow ts a (t_name t).
+Proof.
+  intros W. induction k as [|k IH]; intros t Hin Hk a; [lia|].
+  cbn [ancestors]. rewrite (In_find_ty _ _ (wf_nodup _ W) Hin). destruct (t_super t) as [s|] eqn:Es.
+  - destruct (wf_super _ W t s Hin Es) as (p & Hp & Hlt). destruct (find_ty_In _ _ _ Hp) as [Hpin Hpn]. subst s.
+    cbn [In]. rewrite (IH p Hpin ltac:(lia) a). split.
+    + intros [<-|Hs]; exists t, (t_name p); (split; [apply (In_find_ty _ _ (wf_nodup _ W) Hin)|split; [exact Es|]]).
+      * apply below_refl.
+      * apply sbelow_below. exact Hs.
+    + intros (td & s & Hf & Hs & Hb). rewrite (In_find_ty _ _ (wf_nodup _ W) Hin) in Hf. inversion Hf; subst td.
+      rewrite Es in Hs. inversion Hs; subst s. destruct (below_cases _ _ _ Hb) as [->|Hsb]; [left; reflexivity|right; exact Hsb].
+  - split; [intros []|]. intros (td & s & Hf & Hs & _). rewrite (In_find_ty _ _ (wf_nodup _ W) Hin) in Hf. inversion Hf; subst td. congruence.
+Qed.
+Lemma ancestors_of_spec ts t a : WFh ts -> In t ts -> (In a (ancestors_of ts t) <-> sbelow ts a (t_name t)).
+Proof. intros W Hin. apply ancestors_spec; [exact W|exact Hin|apply Nat.lt_succ_diag_r]. Qed.
+Lemma obool_eqb_eq a b : obool_eqb a b = true <-> a = b.
+Proof.
+  destruct a as [x|], b as [y|]; cbn [obool_eqb]; try (split; [discriminate|intros H; inversion H]); [|tauto].
+  rewrite Bool.eqb_true_iff. split; [intros ->; reflexivity|intros H; inversion H; reflexivity].
+Qed.
+Lemma feat_same_eq f g : feat_same f g = true <-> f = g.
+Proof.
+  destruct f as [n1 r1 d1 g1 e1 m1 c1], g as [n2 r2 d2 g2 e2 m2 c2]. unfold feat_same. cbn [f_name f_reserved f_dom f_range f_elem f_multi f_desc].
+  rewrite !andb_true_iff, !String.eqb_eq, !ostr_eqb_eq, obool_eqb_eq, Bool.eqb_true_iff. split.
+  - intros [[[[[[-> ->] ->] ->] ->] ->] ->]. reflexivity.
+  - intros H. inversion H. repeat split; reflexivity.
+Qed.
+Lemma list_str_eqb_eq a b : list_str_eqb a b = true <-> a = b.
+Proof.
+  unfold list_str_eqb. revert b. induction a as [|x r IH]; intros [|y s]; cbn [list_eqb]; try (split; [discriminate|intros H; inversion H]); [tauto|].
+  rewrite andb_true_iff, String.eqb_eq, IH. split; [intros [-> ->]; reflexivity|intros H; inversion H; auto].
+Qed.
+
+Theorem wffb_sound ts : WFh ts -> wffb ts = true -> WFf ts.
+Proof.
+  intros W H. unfold wffb in H. rewrite forallb_forall in H.
+  assert (G : forall t, In t ts ->
+    (forall f, In f (t_inh t) -> exists a, In a (ancestors_of ts t) /\ exists ta, find_ty ts a = Some ta /\ In f (t_own ta)) /\
+    (forall a ta g, In a (ancestors_of ts t) -> find_ty ts a = Some ta -> In g (t_own ta) -> exists f, In f (t_inh t) /\ feat_eqb f g = true) /\
+    (forall f g, In f (t_own t ++ t_inh t) -> In g (t_own t ++ t_inh t) -> f_name f = f_name g -> feat_eqb f g = true) /\
+    t_ctor_fn t = feature_names t /\ (t_ctor t = None \/ t_ctor t = Some (feature_names t))).
+  { intros t Hin. specialize (H t Hin). cbv zeta in H.
+    apply andb_true_iff in H. destruct H as [H H5]. apply andb_true_iff in H. destruct H as [H H4].
+    apply andb_true_iff in H. destruct H as [H H3]. apply andb_true_iff in H. destruct H as [H1 H2].
+    rewrite forallb_forall in H1, H2, H3. repeat split.
+    - intros f Hf. specialize (H1 f Hf). apply existsb_exists in H1. destruct H1 as (a & Ha & Hx). exists a. split; [exact Ha|].
+      destruct (find_ty ts a) as [ta|]; [|discriminate]. exists ta. split; [reflexivity|].
+      apply existsb_exists in Hx. destruct Hx as (g & Hg & He). apply feat_same_eq in He. subst g. exact Hg.
+    - intros a ta g Ha Hfa Hg. specialize (H2 a Ha). rewrite Hfa in H2. rewrite forallb_forall in H2. specialize (H2 g Hg).
+      apply existsb_exists in H2. exact H2.
+    - intros f g Hf Hg Hn. specialize (H3 f Hf). rewrite forallb_forall in H3. specialize (H3 g Hg).
+      rewrite Hn, String.eqb_refl in H3. exact H3.
+    - apply list_str_eqb_eq. exact H4.
+    - destruct (t_ctor t) as [l|]; [right; apply list_str_eqb_eq in H5; rewrite H5; reflexivity|left; reflexivity]. }
+  constructor.
+  - intros t f Hin Hf. destruct (G t Hin) as (G1 & _). destruct (G1 f Hf) as (a & Ha & ta & Hta & Hfa).
+    exists a, ta. split; [apply (ancestors_of_spec ts t a W Hin); exact Ha|auto].
+  - intros t a ta g Hin Hs Ha Hg. destruct (G t Hin) as (_ & G2 & _). apply (G2 a ta g); auto.
+    apply (ancestors_of_spec ts t a W Hin). exact Hs.
+  - intros t f g Hin. destruct (G t Hin) as (_ & _ & G3 & _). apply G3.
+  - intros t Hin. destruct (G t Hin) as (_ & _ & _ & G4). exact G4.
+Qed.
+Theorem wffb_complete ts : WFh ts -> WFf ts -> wffb ts = true.
+Proof.
+  intros W F. unfold wffb. apply forallb_forall. intros t Hin. cbv zeta. repeat (apply andb_true_iff; split).
+  - apply forallb_forall. intros f Hf. destruct (wf_inh_sound _ F t f Hin Hf) as (a & ta & Hs & Ha & Hfa).
+    apply existsb_exists. exists a. split; [apply (ancestors_of_spec ts t a W Hin); exact Hs|]. rewrite Ha.
+    apply existsb_exists. exists f. split; [exact Hfa|apply feat_same_eq; reflexivity].
+  - apply forallb_forall. intros a Ha. apply (ancestors_of_spec ts t a W Hin) in Ha. destruct (find_ty ts a) as [ta|] eqn:Ea; [|reflexivity].
+    apply forallb_forall. intros g Hg. apply existsb_exists. apply (wf_inh_complete _ F t a ta g Hin Ha Ea Hg).
+  - apply forallb_forall. intros f Hf. apply forallb_forall. intros g Hg.
+    destruct (String.eqb (f_name f) (f_name g)) eqn:E; [|reflexivity]. apply String.eqb_eq in E. cbn [negb orb].
+    apply (wf_one_def _ F t f g Hin Hf Hg E).
+  - apply list_str_eqb_eq. apply (wf_ctor _ F t Hin).
+  - destruct (wf_ctor _ F t Hin) as [_ [->| ->]]; [reflexivity|apply list_str_eqb_eq; reflexivity].
+Qed.
+Theorem wfb_reflect ts : wfb ts = true <-> WF ts.
+Proof.
+  unfold wfb, WF. rewrite andb_true_iff. split.
+  - intros [H1 H2]. pose proof (wfhb_sound _ H1) as W. split; [exact W|apply wffb_sound; assumption].
+  - intros [W F]. split; [apply wfhb_complete; exact W|apply wffb_complete; assumption].
+Qed.
+
+(* ================================================================================================ two forms of _add_feature agree *)
+(* Refinement: under the invariant, the mechanism form (add_rec: recursion through _children, returning early at a type
+   that already inherits a feature of that name) computes exactly the functional form (add_feature: spread).  The crux
+   is that the subtrees of distinct children are disjoint (descendants_nodup, from the ghost rank), and that a pruned
+   subtree already inherits the name everywhere. *)
+Lemma memb_app x a b : memb x (a ++ b) = memb x a || memb x b.
+Proof. induction a as [|y r IH]; cbn [app memb]; [reflexivity|]. rewrite IH, orb_assoc. reflexivity. Qed.
+Lemma memb_false_notin x l : memb x l = false <-> ~ In x l.
+Proof. rewrite <- memb_In. destruct (memb x l); split; congruence. Qed.
+
+Section Refinement.
+Variables (ts : tsys) (dom : tname) (f : feat) (t : ty).
+Hypothesis W : WFh ts.
+Hypothesis F : WFf ts.
+Hypothesis Et : find_ty ts dom = Some t.
+Hypothesis Eo : find_feat (f_name f) (t_own t) = None.
+Hypothesis Ei : find_feat (f_name f) (t_inh t) = None.
+Hypothesis Ec : existsb (fun d => is_below ts dom (t_name d) && conflicts (t_own d) f) ts = false.
+
+Lemma pre_check d : In d ts -> below ts dom (t_name d) -> forall g, In g (t_own d) -> f_name g = f_name f -> feat_eqb g f = true.
+Proof.
+  intros Hd Hb g Hg Hn.
+  assert (Hx : (is_below ts dom (t_name d) && conflicts (t_own d) f) = false).
+  { destruct (is_below ts dom (t_name d) && conflicts (t_own d) f) eqn:E; [|reflexivity].
+    assert (existsb (fun d0 => is_below ts dom (t_name d0) && conflicts (t_own d0) f) ts = true) by (apply existsb_exists; eauto).
+    congruence. }
+  apply (is_below_spec ts dom (t_name d) d W (In_find_ty _ _ (wf_nodup _ W) Hd)) in Hb. rewrite Hb in Hx. cbn [andb] in Hx.
+  eapply conflicts_false; eassumption.
+Qed.
+Lemma old_same_name t0 x : In t0 ts -> below ts dom (t_name t0) -> In x (t_own t0 ++ t_inh t0) -> f_name x = f_name f -> feat_eqb x f = true.
+Proof.
+  intros Hin0 Hb Hx Hn. destruct (find_ty_In _ _ _ Et) as [Htin Htn].
+  apply in_app_or in Hx. destruct Hx as [Hx|Hx]; [apply (pre_check t0 Hin0 Hb x Hx Hn)|].
+  destruct (wf_inh_sound _ F t0 x Hin0 Hx) as (a & ta & Hs & Ha & Hg).
+  destruct (find_ty_In _ _ _ Ha) as [Hain Han].
+  destruct (chain_linear ts a dom (t_name t0) (sbelow_below _ _ _ Hs) Hb) as [Hadom|Hdoma].
+  - destruct (below_cases _ _ _ Hadom) as [->|Hs'].
+    + rewrite Et in Ha. inversion Ha; subst ta. exfalso. apply (find_feat_none _ _ Eo x Hg). exact Hn.
+    + exfalso. rewrite <- Htn in Hs'. destruct (wf_inh_complete _ F t a ta x Htin Hs' Ha Hg) as (f1 & Hf1 & He).
+      apply (find_feat_none _ _ Ei f1 Hf1). rewrite (feat_eqb_name _ _ He). exact Hn.
+  - rewrite <- Han in Hdoma. apply (pre_check ta Hain Hdoma x Hg Hn).
+Qed.
+
+Definition touch_fn (S : list tname) (d : ty) : ty := if memb (t_name d) S then spread ts dom f d else d.
+Definition touch (S : list tname) : tsys := map (touch_fn S) ts.
+Lemma touch_shape S : keeps_shape (touch_fn S).
+Proof. intros d. unfold touch_fn. destruct (memb (t_name d) S); [apply spread_shape|repeat split]. Qed.
+Lemma find_touch_out S c tc : find_ty ts c = Some tc -> memb c S = false -> find_ty (touch S) c = Some tc.
+Proof.
+  intros Hf Hm. unfold touch. rewrite (find_map_shape ts _ c (touch_shape S)), Hf. cbn [option_map].
+  destruct (find_ty_In _ _ _ Hf) as [_ Hn]. unfold touch_fn. rewrite Hn, Hm. reflexivity.
+Qed.
+Lemma touch_snoc S c tc g : find_ty ts c = Some tc -> memb c S = false -> spread ts dom f tc = g tc ->
+  upd_ty (touch S) c g = touch (S ++ [c]).
+Proof.
+  intros Hf Hm Hg. unfold upd_ty, touch. rewrite map_map. apply map_ext_in. intros d Hd.
+  rewrite (proj1 (touch_shape S d)). unfold touch_fn. rewrite memb_app. cbn [memb]. rewrite orb_false_r.
+  destruct (String.eqb (t_name d) c) eqn:E.
+  - apply String.eqb_eq in E. assert (d = tc).
+    { pose proof (In_find_ty _ _ (wf_nodup _ W) Hd) as H0. rewrite E in H0. congruence. }
+    subst d. rewrite E, Hm. cbn [orb]. symmetry. exact Hg.
+  - rewrite orb_false_r. reflexivity.
+Qed.
+(* types of a subtree whose root already inherits the name are left alone by spread *)
+Lemma pruned_subtree_fixed c tc g d : find_ty ts c = Some tc -> sbelow ts dom c -> find_feat (f_name f) (t_inh tc) = Some g ->
+  In d ts -> below ts c (t_name d) -> spread ts dom f d = d.
+Proof.
+  intros Hfc Hsc Hg Hd Hb. destruct (find_feat_some _ _ _ Hg) as [Hgin Hgn]. destruct (find_ty_In _ _ _ Hfc) as [Hcin Hcn].
+  assert (Hsd : sbelow ts dom (t_name d)).
+  { destruct Hsc as (tc' & s & Hf' & Hs' & Hb'). destruct (below_cases _ _ _ Hb) as [<-|(td & s2 & Hfd & Hsd & Hbd)].
+    - exists tc', s. auto.
+    - exists td, s2. repeat split; auto. eapply below_trans; [|exact Hbd]. eapply below_step; eassumption. }
+  assert (Hne : t_name d <> dom) by (intros E; apply (sbelow_neq ts dom (t_name d) W Hsd); symmetry; exact E).
+  assert (Hhas : find_feat (f_name f) (t_inh d) <> None).
+  { destruct (below_cases _ _ _ Hb) as [E|Hs].
+    - assert (d = tc). { pose proof (In_find_ty _ _ (wf_nodup _ W) Hd) as H0. rewrite <- E in H0. congruence. }
+      subst d. rewrite Hg. discriminate.
+    - rewrite <- Hcn in Hs. destruct (wf_inh_sound _ F tc g Hcin Hgin) as (a & ta & Hsa & Ha & Hga).
+      assert (Hsad : sbelow ts a (t_name d)).
+      { destruct Hs as (td & s2 & Hfd & Hsd2 & Hbd). exists td, s2. repeat split; auto.
+        eapply below_trans; [apply sbelow_below; exact Hsa|exact Hbd]. }
+      destruct (wf_inh_complete _ F d a ta g Hd Hsad Ha Hga) as (f1 & Hf1 & He). intros Hnone.
+      apply (find_feat_none _ _ Hnone f1 Hf1). rewrite (feat_eqb_name _ _ He). exact Hgn. }
+  unfold spread. apply String.eqb_neq in Hne. rewrite Hne.
+  destruct (find_feat (f_name f) (t_inh d)); [rewrite andb_false_r; reflexivity|congruence].
+Qed.
+
+Lemma fold_children k :
+  (forall c l S, descendants k ts c = Some l -> sbelow ts dom c -> (forall x, In x l -> memb x S = false) ->
+                 add_rec k (touch S) c f true = Ok (touch (S ++ l))) ->
+  forall cs lc S', concat_opt (map (descendants k ts) cs) = Some lc -> NoDup lc ->
+    (forall x, In x lc -> memb x S' = false) -> (forall ci, In ci cs -> sbelow ts dom ci) ->
+    fold_left (fun acc c => do s <- acc;; add_rec k s c f true) cs (Ok (touch S')) = Ok (touch (S' ++ lc)).
+Proof.
+  intros IH cs. induction cs as [|ci r IHr]; intros lc S' Ecc Hnd HS' Hkids; cbn [map concat_opt] in Ecc.
+  - inversion Ecc; subst lc. cbn [fold_left]. rewrite app_nil_r. reflexivity.
+  - destruct (descendants k ts ci) as [l1|] eqn:E1; [|discriminate].
+    destruct (concat_opt (map (descendants k ts) r)) as [lr|] eqn:E2; [|discriminate]. inversion Ecc; subst lc.
+    cbn [fold_left bind]. rewrite (IH ci l1 S' E1 (Hkids ci (or_introl eq_refl))); [|intros x Hx; apply HS', in_or_app; left; exact Hx].
+    rewrite app_assoc. apply IHr; [reflexivity| | |intros c0 Hc0; apply Hkids; right; exact Hc0].
+    + clear -Hnd. induction l1 as [|y l1 IHl]; [exact Hnd|]. cbn [app] in Hnd. inversion Hnd. apply IHl. assumption.
+    + intros x Hx. rewrite memb_app, (HS' x (in_or_app _ _ _ (or_intror Hx))). cbn [orb].
+      apply memb_false_notin. intros Hx1. clear -Hnd Hx Hx1. induction l1 as [|y l1 IHl]; [contradiction|].
+      cbn [app] in Hnd. inversion Hnd as [|? ? Hn Hnd']; subst. destruct Hx1 as [->|Hx1]; [apply Hn, in_or_app; right; exact Hx|apply IHl; assumption].
+Qed.
+
+Lemma add_rec_subtree : forall k c l S, descendants k ts c = Some l -> sbelow ts dom c ->
+  (forall x, In x l -> memb x S = false) -> add_rec k (touch S) c f true = Ok (touch (S ++ l)).
+Proof.
+  induction k as [|k IH]; intros c l S Hd Hs HS; [discriminate|].
+  pose proof (descendants_nodup ts W _ _ _ Hd) as Hnd.
+  pose proof (descendants_sound ts W _ _ _ Hd) as Hsound.
+  cbn [descendants] in Hd. destruct (find_ty ts c) as [tc|] eqn:Efc; [|discriminate].
+  destruct (concat_opt (map (descendants k ts) (t_children tc))) as [lc|] eqn:Ecc; [|discriminate].
+  cbn [option_map] in Hd. inversion Hd; subst l. clear Hd.
+  destruct (find_ty_In _ _ _ Efc) as [Hcin Hcn].
+  assert (HcS : memb c S = false) by (apply HS; left; reflexivity).
+  cbn [add_rec]. rewrite (find_touch_out S c tc Efc HcS).
+  destruct (find_feat (f_name f) (t_inh tc)) as [g|] eqn:Eg.
+  - (* the child already inherits the name: equal definition, the whole subtree is skipped *)
+    destruct (find_feat_some _ _ _ Eg) as [Hgin Hgn].
+    rewrite (old_same_name tc g Hcin); [| rewrite Hcn; apply sbelow_below; exact Hs | apply in_or_app; right; exact Hgin | exact Hgn].
+    f_equal. unfold touch. apply map_ext_in. intros d Hdin. unfold touch_fn. rewrite memb_app.
+    destruct (memb (t_name d) S); [reflexivity|]. cbn [orb].
+    destruct (memb (t_name d) (c :: lc)) eqn:Em; [|reflexivity].
+    apply memb_In in Em. symmetry. eapply (pruned_subtree_fixed c tc g d); try eassumption. apply Hsound. exact Em.
+  - (* the feature is appended to the inherited table, then the children follow *)
+    assert (Hownchk : match find_feat (f_name f) (t_own tc) with Some g => if feat_eqb g f then Ok tt else Err EValue | None => Ok tt end = Ok tt).
+    { destruct (find_feat (f_name f) (t_own tc)) as [g|] eqn:Eog; [|reflexivity]. destruct (find_feat_some _ _ _ Eog) as [Hgin Hgn].
+      rewrite (old_same_name tc g Hcin); [reflexivity| rewrite Hcn; apply sbelow_below; exact Hs | apply in_or_app; left; exact Hgin | exact Hgn]. }
+    rewrite Hownchk. cbn [bind].
+    assert (Hspread : spread ts dom f tc = with_inh f tc).
+    { unfold spread. assert (String.eqb (t_name tc) dom = false) as ->.
+      { apply String.eqb_neq. rewrite Hcn. intros E. apply (sbelow_neq ts dom c W Hs). symmetry. exact E. }
+      rewrite Hcn, (proj2 (is_below_spec ts dom c tc W Efc) (sbelow_below _ _ _ Hs)), Eg. reflexivity. }
+    rewrite (touch_snoc S c tc (with_inh f) Efc HcS Hspread).
+    (* the fold over the children *)
+    assert (Hcnotin : ~ In c lc) by (inversion Hnd; assumption).
+    assert (Hndlc : NoDup lc) by (inversion Hnd; assumption).
+    assert (HlcS : forall x, In x lc -> memb x (S ++ [c]) = false).
+    { intros x Hx. rewrite memb_app, (HS x (or_intror Hx)). cbn [memb orb]. rewrite orb_false_r.
+      apply String.eqb_neq. intros ->. contradiction. }
+    assert (Hkids : forall ci, In ci (t_children tc) -> sbelow ts dom ci).
+    { intros ci Hci. apply (wf_children _ W tc ci Hcin) in Hci. destruct Hci as (tci & Hfi & Hsi). rewrite Hcn in Hsi.
+      exists tci, c. repeat split; auto. apply sbelow_below. exact Hs. }
+    replace (S ++ c :: lc) with ((S ++ [c]) ++ lc) by (rewrite <- app_assoc; reflexivity).
+    apply (fold_children k IH (t_children tc) lc (S ++ [c]) Ecc Hndlc HlcS Hkids).
+Qed.
+
+Theorem add_rec_is_spread : add_feature_mech ts dom f = Ok (map (spread ts dom f) ts).
+Proof.
+  destruct (find_ty_In _ _ _ Et) as [Htin Htn].
+  destruct (descendants_full_spec ts t W Htin) as (l & Hl & Hnd & Hspec). rewrite Htn in Hl, Hspec.
+  unfold add_feature_mech, desc_fuel. cbn [add_rec]. rewrite Et, Eo, Ei. fold (desc_fuel ts). rewrite Hl.
+  (* the descendant pre-check gives the same verdict *)
+  assert (Hchk : existsb (fun d => match find_ty ts d with Some td => conflicts (t_own td) f | None => false end) l = false).
+  { destruct (existsb _ l) eqn:E; [|reflexivity]. exfalso. apply existsb_exists in E. destruct E as (d & Hdl & Hc).
+    destruct (find_ty ts d) as [td|] eqn:Ed; [|discriminate]. destruct (find_ty_In _ _ _ Ed) as [Hdin Hdn].
+    assert (existsb (fun d0 => is_below ts dom (t_name d0) && conflicts (t_own d0) f) ts = true).
+    { apply existsb_exists. exists td. split; [exact Hdin|]. rewrite Hdn.
+      rewrite (proj2 (is_below_spec ts dom d td W Ed) (proj1 (Hspec d) Hdl)). exact Hc. }
+    congruence. }
+  rewrite Hchk. cbn [bind].
+  (* the domain gets the own feature ... *)
+  assert (Hspread : spread ts dom f t = with_own f t) by (unfold spread; rewrite Htn, String.eqb_refl; reflexivity).
+  assert (E1 : upd_ty ts dom (with_own f) = touch [dom]).
+  { assert (E0 : touch (@nil string) = ts) by (unfold touch, touch_fn; cbn [memb]; apply map_id).
+    pose proof (touch_snoc [] dom t (with_own f) Et eq_refl Hspread) as Hx. rewrite E0 in Hx. exact Hx. }
+  rewrite E1.
+  (* ... and the children's subtrees follow, which together with the domain are everything below it *)
+  unfold desc_fuel in Hl. cbn [descendants] in Hl. rewrite Et in Hl.
+  destruct (concat_opt (map (descendants (max_rank ts) ts) (t_children t))) as [lc|] eqn:Ecc; [|discriminate].
+  cbn [option_map] in Hl. inversion Hl; subst l.
+  assert (Hdnotin : ~ In dom lc) by (inversion Hnd; assumption).
+  assert (Hndlc : NoDup lc) by (inversion Hnd; assumption).
+  assert (Hall : fold_left (fun acc c => do s <- acc;; add_rec (max_rank ts) s c f true) (t_children t) (Ok (touch [dom])) = Ok (touch ([dom] ++ lc))).
+  { assert (Hkids : forall ci, In ci (t_children t) -> sbelow ts dom ci).
+    { intros ci Hci. apply (wf_children _ W t ci Htin) in Hci. destruct Hci as (tci & Hfi & Hsi). rewrite Htn in Hsi.
+      exists tci, dom. repeat split; auto. apply below_refl. }
+    assert (HS0 : forall x, In x lc -> memb x [dom] = false).
+    { intros x Hx. cbn [memb]. rewrite orb_false_r. apply String.eqb_neq. intros ->. contradiction. }
+    apply (fold_children (max_rank ts) (add_rec_subtree (max_rank ts)) (t_children t) lc [dom] Ecc Hndlc HS0 Hkids). }
+  rewrite Hall. f_equal. unfold touch. apply map_ext_in. intros d Hd. unfold touch_fn. cbn [app].
+  destruct (memb (t_name d) (dom :: lc)) eqn:Em; [reflexivity|].
+  (* not below the domain: spread leaves it alone *)
+  apply memb_false_notin in Em. unfold spread.
+  assert (String.eqb (t_name d) dom = false) as -> by (apply String.eqb_neq; intros E; apply Em; left; symmetry; exact E).
+  destruct (is_below ts dom (t_name d)) eqn:Eb; [|reflexivity].
+  exfalso. apply Em. apply Hspec. apply (is_below_spec ts dom (t_name d) d W (In_find_ty _ _ (wf_nodup _ W) Hd)). exact Eb.
+Qed.
+End Refinement.
+
+(* Type._add_feature as written (recursion through _children) and its functional form agree on every well-formed type
+   system: same new state, same no-op, same refusal - in particular no exception is ever raised inside the recursion *)
+Theorem add_feature_mech_agrees ts dom f : WFh ts -> WFf ts ->
+  add_feature_mech ts dom f =
+  match add_feature ts dom f with Added ts' => Ok ts' | Unchanged => Ok ts | Raises e => Err e | Fuel => OutOfFuel end.
+Proof.
+  intros W F. unfold add_feature. destruct (find_ty ts dom) as [t|] eqn:Et.
+  - destruct (find_feat (f_name f) (t_own t)) as [g|] eqn:Eo.
+    + unfold add_feature_mech, desc_fuel. cbn [add_rec]. rewrite Et, Eo. destruct (feat_eqb g f); reflexivity.
+    + destruct (find_feat (f_name f) (t_inh t)) as [g|] eqn:Ei.
+      * unfold add_feature_mech, desc_fuel. cbn [add_rec]. rewrite Et, Eo, Ei. destruct (feat_eqb g f); reflexivity.
+      * destruct (existsb (fun d => is_below ts dom (t_name d) && conflicts (t_own d) f) ts) eqn:Ec.
+        -- (* refused by the descendant pre-check, before anything is changed *)
+           destruct (find_ty_In _ _ _ Et) as [Htin Htn].
+           destruct (descendants_full_spec ts t W Htin) as (l & Hl & _ & Hspec). rewrite Htn in Hl, Hspec.
+           unfold add_feature_mech, desc_fuel. cbn [add_rec]. rewrite Et, Eo, Ei. fold (desc_fuel ts). rewrite Hl.
+           apply existsb_exists in Ec. destruct Ec as (d & Hd & Hc). apply andb_true_iff in Hc. destruct Hc as [Hb Hc].
+           apply (is_below_spec ts dom (t_name d) d W (In_find_ty _ _ (wf_nodup _ W) Hd)) in Hb.
+           assert (existsb (fun d0 => match find_ty ts d0 with Some td => conflicts (t_own td) f | None => false end) l = true) as ->.
+           { apply existsb_exists. exists (t_name d). split; [apply Hspec; exact Hb|].
+             rewrite (In_find_ty _ _ (wf_nodup _ W) Hd). exact Hc. }
+           reflexivity.
+        -- apply (add_rec_is_spread ts dom f t W F Et Eo Ei Ec).
+  - unfold add_feature_mech, desc_fuel. cbn [add_rec]. rewrite Et. reflexivity.
+Qed.
+(* hence whole histories agree *)
+Theorem step_mech_agrees ts o : WF ts -> step_mech ts o = step ts o.
+Proof.
+  intros [W F]. destruct o as [n s d|dom n r e m d|n]; cbn [step_mech]; try reflexivity.
+  cbn [step]. unfold create_feature_mech, create_feature.
+  destruct (make_feature ts dom n r e m d) as [f0| |]; cbn [bind]; try reflexivity.
+  rewrite (add_feature_mech_agrees ts (f_dom f0) f0 W F). destruct (add_feature ts (f_dom f0) f0); reflexivity.
+Qed.
+Theorem run_mech_agrees ops : forall ts, WF ts -> run_ts_mech ops ts = run_ts ops ts.
+Proof.
+  unfold run_ts_mech, run_ts. induction ops as [|o r IH]; intros ts Hw; [reflexivity|].
+  cbn [run_with]. rewrite (step_mech_agrees ts o Hw). destruct (step ts o) as [ts1 x] eqn:E.
+  rewrite (IH ts1); [reflexivity|]. pose proof (step_WF ts o Hw) as H1. rewrite E in H1. exact H1.
+Qed.
